@@ -80,6 +80,8 @@ def shards(tier: str) -> List[Dict[str, Any]]:
     for model in c08.MODELS:
         if model.startswith("may-reject:") or not c08.MODELS[model].exists():
             continue
+        if model == "bytes":
+            continue  # its valid documents are already rejected (open C11 finding on byte-array lengths): nothing to mutate
         seen = set()
         for kind, name, focus in c08._targets(model):
             if kind != "class" or name in seen:
